@@ -1,15 +1,15 @@
 SPECIFICATION Spec
 CONSTANTS
-  Impl = "asis"
+  Impl = "fixed"
   VarTexts <- MCVarTexts
   GlobTexts <- MCGlobTexts
   Universe <- MCUniverse
   Reqs <- MCReqs
   TokRank <- MCTokRank
   MaxRoutes = 2
-  ELits = {"a"}
+  ELits = {"a", "b"}
   PLits = {"a", "b"}
-  Depth = 1
-  PathDepth = 1
-INVARIANTS Det
+  Depth = 2
+  PathDepth = 3
+INVARIANTS Det MostSpecific OutcomesExact
 CHECK_DEADLOCK FALSE
